@@ -386,6 +386,7 @@ func checkC04(c *Ctx) {
 	extract := p.Method("pkg/policy", "Addressing", "ExtractMailbox")
 	mbfa := p.Method("pkg/message", "StoreManager", "MailboxForAddress")
 	newRecip := p.Method("pkg/policy", "Addressing", "NewRecipient")
+	c.c04ReceiveVerbatim(newRecip)
 	fMailbox := p.Field("pkg/policy", "Recipient", "Mailbox")
 	mbfaObj := p.MethodObj("pkg/message", "Manager", "MailboxForAddress")
 	mgr := p.Named("pkg/message", "Manager")
@@ -1168,4 +1169,79 @@ func isPhiAlias(v ssa.Value, x *ssa.Phi) bool {
 		}
 	}
 	return false
+}
+
+// c04ReceiveVerbatim: "the name computed when mail is received is the same name every read
+// interface computes when a user asks for that address". The read interfaces hand the address
+// the user typed straight to the naming function; the receiving side must therefore hand
+// NewRecipient the address the client wrote, taken out of the command line only by framing
+// operations (slicing off "TO:", trimming "<", ">" and blanks, a regexp submatch). Any other
+// string operation applied on the receiving side alone (a trimmed dot, a lowered case, a
+// replacement) makes the two sides name different mailboxes for some address.
+func (c *Ctx) c04ReceiveVerbatim(newRecip *ssa.Function) {
+	p, r := c.P, c.R
+	rule := "C04/RECEIVE/verbatim"
+	r.Rule(rule, "the address argument of NewRecipient at each call site outside pkg/policy is cut out of its input by framing operations only (slices, Trim* with a cutset of '<', '>' and white space, regexp submatch); no other string transformation is applied on the receiving side alone")
+	if newRecip == nil {
+		return
+	}
+	framing := func(s string) bool {
+		for _, ch := range s {
+			if !strings.ContainsRune("<> \t\r\n", ch) {
+				return false
+			}
+		}
+		return true
+	}
+	n := 0
+	ord := map[string]int{}
+	for _, cs := range p.StaticCallSites(newRecip) {
+		in := cs.Instr.(ssa.Instruction)
+		if eng.FuncPkgPath(in.Parent()) == eng.Mod+"/pkg/policy" || len(cs.Args) == 0 {
+			continue
+		}
+		n++
+		cons := siteCons(p, in, ord, "address")
+		var bad []string
+		eng.BackSlice(cs.Args[len(cs.Args)-1], func(v ssa.Value) bool {
+			call, ok := v.(*ssa.Call)
+			if !ok {
+				return false
+			}
+			if g := eng.StaticCallee(call.Common()); g != nil && eng.InModule(g) && len(g.Blocks) > 0 {
+				return false // looked through
+			}
+			if _, isStr := call.Type().Underlying().(*types.Basic); !isStr {
+				if _, isSl := call.Type().Underlying().(*types.Slice); !isSl {
+					return false
+				}
+			}
+			nm := eng.CalleeName(call.Common())
+			okOp := false
+			switch nm {
+			case "strings.TrimSpace", "(*regexp.Regexp).FindStringSubmatch", "(*regexp.Regexp).FindString", "builtin.len", "strings.Clone":
+				okOp = true
+			case "strings.Trim", "strings.TrimLeft", "strings.TrimRight", "strings.TrimPrefix", "strings.TrimSuffix":
+				if len(call.Call.Args) == 2 {
+					if k, isK := eng.ConstString(call.Call.Args[1]); isK && framing(k) {
+						okOp = true
+					}
+				}
+			}
+			if !strings.HasPrefix(nm, "strings.") && !strings.HasPrefix(nm, "bytes.") && !strings.HasPrefix(nm, "(*regexp.") && !strings.HasPrefix(nm, "unicode") && !strings.HasPrefix(nm, "(*strings.") {
+				return false // not a string transformation (readers, loggers, …)
+			}
+			if !okOp {
+				bad = append(bad, nm+" at "+p.InstrPos(call))
+			}
+			return false
+		})
+		if len(bad) > 0 {
+			sort.Strings(bad)
+			r.Bad(rule, cons, p.InstrPos(in), "the recipient address is transformed before it is named (%s): the mailbox the message is filed under is computed from the changed address, while REST, web UI and the monitor compute it from the address as the user writes it — for the addresses the transformation touches, mail is received into a mailbox nobody who asks for that address is shown", strings.Join(bad, "; "))
+		} else {
+			r.Ok(rule, cons, p.InstrPos(in), "only framing operations between the command line and NewRecipient")
+		}
+	}
+	r.Floor(rule, "NewRecipient call sites outside pkg/policy", n, 1)
 }
